@@ -1,6 +1,9 @@
 use crate::ttl::{ExpirationMap, Time};
 use crate::utils::{change_lifetime_const, SharedValue, ValueRef, ValueRefMut};
 use crate::{CacheError, DefaultUpdateValidator, Item as CrateItem, UpdateValidator};
+#[cfg(transparencies_stretto_verif)]
+use crate::verif::locks::RwLock;
+#[cfg(not(transparencies_stretto_verif))]
 use parking_lot::RwLock;
 use std::collections::hash_map::RandomState;
 use std::collections::HashMap;
@@ -345,6 +348,7 @@ impl<
         for shard in self.shards.iter() {
             // the observer must not hang on a shard lock that the code under test never releases
             let data = shard
+                .raw()
                 .try_read_for(std::time::Duration::from_secs(3))
                 .expect("verif: a shard lock was not released within 3 s");
             for (k, item) in data.iter() {
